@@ -1,0 +1,22 @@
+//go:build verif
+
+package filtering
+
+import "time"
+
+// VerifStopUpdatesLoop makes the updates loop return (as Close does, without
+// closing anything else).  The harness then runs the loop's two bodies itself,
+// as scheduled tasks, and starts the loop again with VerifStartUpdatesLoop.
+func (d *DNSFilter) VerifStopUpdatesLoop() {
+	d.done <- struct{}{}
+}
+
+// VerifStartUpdatesLoop starts the updates loop the way Start does.
+func (d *DNSFilter) VerifStartUpdatesLoop() {
+	go d.updatesLoop()
+}
+
+// VerifPeriodicRefresh is the body the updates loop runs when its timer fires.
+func (d *DNSFilter) VerifPeriodicRefresh(ivl time.Duration) (nextIvl time.Duration) {
+	return d.periodicallyRefreshFilters(ivl)
+}
